@@ -1,5 +1,5 @@
 Require Extraction.
 Require Import ExtrOcamlBasic.
 From Herc Require Import Base.Conv Plumbing.LineCount Plumbing.Script.
-Extraction "c11_model.ml" conv_anchor count_lines textb split_lines strip diff_loc diff_lines_to_runes
+Extraction "c11_model.ml" conv_anchor count_lines textb split_lines strip diff_loc diff_lines_to_runes shift_id
   lines_script_ok spec_ok canonical old_total new_total burndown_accepts line_stats.
